@@ -8,7 +8,7 @@ cd "$WT" || exit 2
 echo "== tracked changes:"; git status --short | grep -v '^??'
 echo "== demo WITH change (expect FAIL)"
 go test -vet=off -count=1 -run "$PAT" "$PKG" 2>&1 | grep -E '^(--- FAIL|FAIL|ok|PASS|panic)' | head -5
-git stash -q
+git diff > /tmp/seedtmp.change.$$.diff; git checkout -q -- .   # (not `git stash`: the stash is shared by all worktrees of the repository)
 # new source files of the change are untracked and survive the stash: move them away too (everything untracked that is
 # not a test file and not under seed/)
 mkdir -p /tmp/seedtmp/new.$$
@@ -17,7 +17,7 @@ for f in $NEWSRC; do mkdir -p /tmp/seedtmp/new.$$/$(dirname $f); mv "$f" /tmp/se
 echo "== demo WITHOUT change (expect ok)"
 go test -vet=off -count=1 -run "$PAT" "$PKG" 2>&1 | grep -E '^(--- FAIL|FAIL|ok|PASS|panic)' | head -5
 for f in $NEWSRC; do mv /tmp/seedtmp/new.$$/$f "$f"; done
-git stash pop -q
+git apply /tmp/seedtmp.change.$$.diff && rm -f /tmp/seedtmp.change.$$.diff
 if [ -z "$SKIP" ]; then
   echo "== full suite WITH change, excluding the demo (expect only TestRules)"
   mkdir -p /tmp/seedtmp; DEMOS=$(git status --short | grep '^??' | grep '_test.go' | awk '{print $2}')
